@@ -1,3 +1,676 @@
 package main
 
-func cmdCheck(args []string) int { return 2 }
+// check.go - `symgo check <ID> --tier quick|thorough`: run a property's harness jobs,
+// replay counterexamples natively, write evidence, print VIOLATION / KNOWN-FINDING lines.
+
+import (
+	"bufio"
+	"bytes"
+	"encoding/json"
+	"flag"
+	"fmt"
+	"math/rand"
+	"os"
+	"os/exec"
+	"path/filepath"
+	"regexp"
+	"sort"
+	"strconv"
+	"strings"
+	"time"
+)
+
+type groupRun struct {
+	spec    PkgSpec
+	w       *World
+	jobs    []*jobState
+	canary  []*jobState
+	pkgName string
+	files   []string // harness source files (absolute)
+	tmp     string
+}
+
+type replayItem struct {
+	ID      string        `json:"id"`
+	Entry   string        `json:"entry"`
+	Witness NativeWitness `json:"witness"`
+}
+
+type replayResult struct {
+	Status   string
+	Failures []string
+	Reached  []string
+	Observed []string
+}
+
+var pkgClauseRe = regexp.MustCompile(`(?m)^package\s+(\w+)`)
+
+func cmdCheck(args []string) int {
+	if len(args) < 1 {
+		fmt.Fprintln(os.Stderr, "usage: symgo check <ID> [--tier quick|thorough]")
+		return 2
+	}
+	id := args[0]
+	fs := flag.NewFlagSet("check", flag.ExitOnError)
+	tier := fs.String("tier", "quick", "")
+	repo := fs.String("repo", "/repo", "")
+	workers := fs.Int("workers", 16, "")
+	verbose := fs.Bool("v", false, "")
+	only := fs.String("only", "", "restrict to harness entries containing this substring")
+	fs.Parse(args[1:])
+	if t := os.Getenv("VERIF_TIER"); t != "" && !flagSet(fs, "tier") {
+		*tier = t
+	}
+	seed := int64(1)
+	if s := os.Getenv("VERIF_SEED"); s != "" {
+		if v, err := strconv.ParseInt(s, 10, 64); err == nil {
+			seed = v
+		}
+	}
+	root := verifRoot()
+	t0 := time.Now()
+	specB, err := os.ReadFile(filepath.Join(root, "checks", id+".json"))
+	if err != nil {
+		fmt.Println("ENGINE-ERROR: cannot read check spec:", err)
+		return 2
+	}
+	var spec CheckSpec
+	if err := json.Unmarshal(specB, &spec); err != nil {
+		fmt.Println("ENGINE-ERROR: bad check spec:", err)
+		return 2
+	}
+	tmp, err := os.MkdirTemp("", "verif-"+id+"-")
+	if err != nil {
+		fmt.Println("ENGINE-ERROR:", err)
+		return 2
+	}
+	defer os.RemoveAll(tmp)
+
+	var groups []*groupRun
+	var allJobs []*jobState
+	for gi, g := range spec.Groups {
+		gr := &groupRun{spec: g, tmp: filepath.Join(tmp, fmt.Sprintf("g%d", gi))}
+		os.MkdirAll(gr.tmp, 0o755)
+		for _, h := range g.Harness {
+			gr.files = append(gr.files, filepath.Join(root, h))
+		}
+		b, err := os.ReadFile(gr.files[0])
+		if err != nil {
+			fmt.Println("ENGINE-ERROR:", err)
+			return 2
+		}
+		m := pkgClauseRe.FindSubmatch(b)
+		if m == nil {
+			fmt.Println("ENGINE-ERROR: no package clause in", gr.files[0])
+			return 2
+		}
+		gr.pkgName = string(m[1])
+		decl := filepath.Join(gr.tmp, "decl.go")
+		if err := instantiate(filepath.Join(root, "harness/common/verif_decl.go.tmpl"), decl, gr.pkgName); err != nil {
+			fmt.Println("ENGINE-ERROR:", err)
+			return 2
+		}
+		w, err := LoadWorld(*repo, g.Pkg, append([]string{decl}, gr.files...), "")
+		if err != nil {
+			fmt.Println("ENGINE-ERROR: loading", g.Pkg, "with harness:", err)
+			writeEvidenceError(root, id, *tier, seed, spec, "tree does not load with harness: "+err.Error(), time.Since(t0))
+			return 2
+		}
+		gr.w = w
+		specs := g.Quick
+		if *tier == "thorough" && len(g.Thorough) > 0 {
+			specs = g.Thorough
+		}
+		for _, js := range specs {
+			if *only != "" && !strings.Contains(js.Entry, *only) {
+				continue
+			}
+			if w.pkg.Func(js.Entry) == nil {
+				fmt.Printf("ENGINE-ERROR: harness function %s not found in %s\n", js.Entry, g.Pkg)
+				return 2
+			}
+			sweep := expandSweep(js)
+			for pi, p := range sweep {
+				first := pi == len(sweep)-1
+				cfg := mkConfig(js, p, *tier)
+				j := &jobState{cfg: cfg, w: w, entry: js.Entry, outcomes: map[string]int{}, reaches: map[string]bool{}}
+				gr.jobs = append(gr.jobs, j)
+				allJobs = append(allJobs, j)
+				if js.Canary && first {
+					ccfg := *cfg
+					ccfg.Canary = true
+					cj := &jobState{cfg: &ccfg, w: w, entry: js.Entry, outcomes: map[string]int{}, reaches: map[string]bool{}}
+					gr.canary = append(gr.canary, cj)
+					allJobs = append(allJobs, cj)
+				}
+			}
+		}
+		groups = append(groups, gr)
+	}
+	stats := runJobs(allJobs, *workers, *verbose)
+
+	// ---- aggregate ----
+	var (
+		paths, asserts, steps, forks, inconcl int
+		inconclMsgs                          []string
+		outcomes                             = map[string]int{}
+		samples                              []interface{}
+		jobsRun                              int
+		nontrivial                           int
+		canaryOK, canaryTotal                int
+		replayed, replayConfirmed            int
+		validated                            int
+		engineFail                           []string
+	)
+	type cand struct {
+		gr  *groupRun
+		j   *jobState
+		v   Violation
+		key string
+	}
+	var cands []cand
+	funcs := map[string]bool{}
+	for _, gr := range groups {
+		for _, j := range gr.jobs {
+			jobsRun++
+			paths += j.paths
+			asserts += j.asserts
+			steps += j.steps
+			forks += j.forks
+			for k, v := range j.outcomes {
+				outcomes[k] += v
+			}
+			if j.asserts > 0 {
+				nontrivial++
+			}
+			if len(j.inconcl) > 0 || j.overflow {
+				inconcl++
+				for _, m := range j.inconcl {
+					if len(inconclMsgs) < 8 {
+						inconclMsgs = append(inconclMsgs, fmt.Sprintf("%s%v: %s", j.entry, j.cfg.Params, m))
+					}
+				}
+				if j.overflow {
+					inconclMsgs = append(inconclMsgs, fmt.Sprintf("%s%v: path budget exceeded", j.entry, j.cfg.Params))
+				}
+			}
+			if len(samples) < 6 && len(j.samples) > 0 {
+				samples = append(samples, map[string]interface{}{"harness": j.entry, "params": j.cfg.Params, "paths": j.paths, "obligations_discharged": j.asserts, "outcomes": j.outcomes, "reached": sortedKeys(j.reaches), "first_paths": j.samples})
+			}
+			// reachability witnesses: every job must reach at least one label unless it found a violation
+			if len(j.reaches) == 0 && len(j.viol) == 0 && len(j.inconcl) == 0 {
+				engineFail = append(engineFail, fmt.Sprintf("vacuous harness run %s%v: no verifReach label reached", j.entry, j.cfg.Params))
+			}
+			seen := map[string]bool{}
+			for _, v := range j.viol {
+				key := j.entry + "/" + v.Label
+				if seen[key] {
+					continue
+				}
+				seen[key] = true
+				cands = append(cands, cand{gr, j, v, key})
+			}
+		}
+		for f := range gr.w.instrs {
+			funcs[f] = true
+		}
+	}
+
+	// ---- canaries: each falsified twin must yield a violation that reproduces natively ----
+	var batch = map[*groupRun][]replayItem{}
+	type pend struct {
+		kind string // "canary","cand","valid"
+		ci   int
+		j    *jobState
+		want []string
+	}
+	pending := map[string]pend{}
+	for _, gr := range groups {
+		for ci, cj := range gr.canary {
+			canaryTotal++
+			if len(cj.viol) == 0 {
+				engineFail = append(engineFail, fmt.Sprintf("canary of %s%v was not detected (pipeline cannot see violations)", cj.entry, cj.cfg.Params))
+				continue
+			}
+			v := cj.viol[0]
+			rid := fmt.Sprintf("canary-%d-%d", len(batch[gr]), ci)
+			batch[gr] = append(batch[gr], replayItem{ID: rid, Entry: cj.entry, Witness: nativeWitness(cj.cfg.Params, v.Nondets, v.Model, true)})
+			pending[rid] = pend{kind: "canary", j: cj}
+		}
+	}
+	// ---- candidates ----
+	for i, c := range cands {
+		if spec.Replay == "none" {
+			continue
+		}
+		rid := fmt.Sprintf("cand-%d", i)
+		batch[c.gr] = append(batch[c.gr], replayItem{ID: rid, Entry: c.j.entry, Witness: nativeWitness(c.j.cfg.Params, c.v.Nondets, c.v.Model, false)})
+		pending[rid] = pend{kind: "cand", ci: i, j: c.j}
+	}
+	// ---- translator validation: concrete runs, engine vs native ----
+	rng := rand.New(rand.NewSource(seed))
+	type validRun struct {
+		gr *groupRun
+		j  *jobState
+		w  NativeWitness
+		id string
+	}
+	var vruns []validRun
+	if spec.Replay != "none" {
+		for _, gr := range groups {
+			// up to 6 validation runs per group, spread over jobs
+			n := 0
+			for _, j := range gr.jobs {
+				if n >= 6 {
+					break
+				}
+				if len(j.viol) > 0 || len(j.inconcl) > 0 {
+					continue
+				}
+				if rng.Intn(len(gr.jobs)) > 6 && n > 0 {
+					continue
+				}
+				w := NativeWitness{Params: j.cfg.Params}
+				for k := 0; k < 64; k++ {
+					r := NativeRec{Kind: "any", Value: int64(rng.Intn(3))}
+					for b := 0; b < 600; b++ {
+						r.Vals = append(r.Vals, uint64(rng.Intn(256)))
+					}
+					if rng.Intn(3) == 0 {
+						for b := range r.Vals {
+							r.Vals[b] = uint64(32 + rng.Intn(65)) // uu alphabet / printable
+						}
+					}
+					w.Nondets = append(w.Nondets, r)
+				}
+				rid := fmt.Sprintf("valid-%d-%d", len(vruns), n)
+				vruns = append(vruns, validRun{gr, j, w, rid})
+				batch[gr] = append(batch[gr], replayItem{ID: rid, Entry: j.entry, Witness: w})
+				n++
+			}
+		}
+	}
+	// run the engine in concrete mode for validation runs
+	engineObs := map[string]replayResult{}
+	for _, vr := range vruns {
+		ccfg := *vr.j.cfg
+		ccfg.Concrete = &vr.w
+		cj := &jobState{cfg: &ccfg, w: vr.gr.w, entry: vr.j.entry, outcomes: map[string]int{}, reaches: map[string]bool{}}
+		runJobsCollect([]*jobState{cj}, 1, engineObs, vr.id)
+	}
+	results := map[string]replayResult{}
+	for gr, items := range batch {
+		if len(items) == 0 {
+			continue
+		}
+		rs, err := nativeReplay(*repo, root, gr, items)
+		if err != nil {
+			engineFail = append(engineFail, "native replay failed to run: "+err.Error())
+			continue
+		}
+		for k, v := range rs {
+			results[k] = v
+		}
+	}
+	for _, vr := range vruns {
+		nat, ok := results[vr.id]
+		eng, ok2 := engineObs[vr.id]
+		if !ok || !ok2 {
+			continue
+		}
+		if nat.Status == "assume-failed" && eng.Status == "pruned" {
+			validated++
+			continue
+		}
+		agree := (nat.Status == "pass") == (eng.Status == "ok") && strings.Join(nat.Reached, ",") == strings.Join(eng.Reached, ",") && strings.Join(nat.Observed, ",") == strings.Join(eng.Observed, ",")
+		if agree {
+			validated++
+		} else {
+			engineFail = append(engineFail, fmt.Sprintf("translator validation disagreement on %s%v: native=%v engine=%v", vr.j.entry, vr.j.cfg.Params, nat, eng))
+		}
+	}
+	for rid, p := range pending {
+		r, ok := results[rid]
+		if !ok {
+			continue
+		}
+		if p.kind == "canary" {
+			if r.Status == "failed" || strings.HasPrefix(r.Status, "panic") {
+				canaryOK++
+			} else {
+				engineFail = append(engineFail, fmt.Sprintf("canary counterexample of %s did not reproduce natively (status %s)", p.j.entry, r.Status))
+			}
+		}
+	}
+
+	// ---- classify candidates ----
+	known := loadKnownFindings(filepath.Join(root, "KNOWN_FINDINGS.txt"))
+	outDir := filepath.Join(root, "out", id)
+	os.MkdirAll(outDir, 0o755)
+	violations := 0
+	var lines []string
+	for i, c := range cands {
+		rid := fmt.Sprintf("cand-%d", i)
+		wpath := filepath.Join(outDir, fmt.Sprintf("%s-%d.json", sanitize(c.key), i))
+		wit := map[string]interface{}{"property": id, "harness": c.j.entry, "params": c.j.cfg.Params, "label": c.v.Label, "kind": c.v.Kind, "detail": c.v.Detail,
+			"pos": c.v.Pos, "pkg": c.gr.spec.Pkg, "harness_files": c.gr.spec.Harness, "witness": nativeWitness(c.j.cfg.Params, c.v.Nondets, c.v.Model, false), "decisions": c.v.Trace, "schedule": c.v.Sched, "events": c.v.Events}
+		status := "symbolic-only"
+		if spec.Replay != "none" {
+			replayed++
+			r, ok := results[rid]
+			switch {
+			case !ok:
+				status = "replay-did-not-run"
+			case r.Status == "failed" || strings.HasPrefix(r.Status, "panic"):
+				status = "reproduced"
+				replayConfirmed++
+			default:
+				status = "not-reproduced:" + r.Status
+			}
+			wit["native_replay"] = map[string]interface{}{"status": status, "failures": results[rid].Failures}
+		}
+		b, _ := json.MarshalIndent(wit, "", " ")
+		os.WriteFile(wpath, b, 0o644)
+		if strings.HasPrefix(status, "not-reproduced") || status == "replay-did-not-run" {
+			engineFail = append(engineFail, fmt.Sprintf("counterexample for %s does not reproduce natively (%s): encoding or stub is wrong; see %s", c.key, status, wpath))
+			continue
+		}
+		if kf, ok := known[id+"|"+c.j.entry+"|"+c.v.Label]; ok {
+			lines = append(lines, fmt.Sprintf("KNOWN-FINDING: property=%s %s", id, kf))
+			continue
+		}
+		violations++
+		lines = append(lines, fmt.Sprintf("VIOLATION property=%s replay=%s", id, wpath))
+		lines = append(lines, fmt.Sprintf("  harness=%s params=%v label=%s kind=%s (%s) %s", c.j.entry, c.j.cfg.Params, c.v.Label, c.v.Kind, status, c.v.Detail))
+	}
+	// dedupe known-finding lines
+	sort.Strings(lines)
+	var ulines []string
+	for i, l := range lines {
+		if i == 0 || l != lines[i-1] {
+			ulines = append(ulines, l)
+		}
+	}
+	wall := time.Since(t0)
+
+	// ---- evidence ----
+	var fnames []string
+	for _, gr := range groups {
+		for _, h := range gr.spec.Harness {
+			fnames = append(fnames, h)
+		}
+	}
+	encoded := encodedFunctions(groups)
+	solverInfo := map[string]interface{}{}
+	totalQ := 0
+	for k, s := range stats {
+		solverInfo[k] = map[string]interface{}{"queries": s.Queries, "sat": s.Sat, "unsat": s.Unsat, "unknown": s.Unknown, "errors": s.Errors, "solver_time_s": round2(s.TimeS)}
+		totalQ += s.Queries
+	}
+	var bounds []string
+	for _, gr := range groups {
+		specs := gr.spec.Quick
+		if *tier == "thorough" && len(gr.spec.Thorough) > 0 {
+			specs = gr.spec.Thorough
+		}
+		for _, js := range specs {
+			b := js.Entry + ":"
+			if len(js.Sweep) > 0 {
+				b += fmt.Sprintf(" sweep=%v", js.Sweep)
+			}
+			if len(js.Params) > 0 {
+				b += fmt.Sprintf(" params=%v", js.Params)
+			}
+			if js.Bounds != "" {
+				b += " " + js.Bounds
+			}
+			bounds = append(bounds, b)
+		}
+	}
+	cov := map[string]interface{}{
+		"explanation":                   spec.Explain,
+		"evaluations":                   paths,
+		"distinct_nontrivial":           nontrivial,
+		"rule":                          "one evaluation = one symbolic path of a harness instance, decided for all values of its symbolic inputs by the SMT solver; distinct_nontrivial = number of distinct harness instances (entry x parameter tuple) with at least one discharged obligation",
+		"states":                        paths,
+		"transitions":                   steps,
+		"traces_validated_against_impl": validated,
+		"obligations":                   asserts + violations + inconcl,
+		"discharged":                    asserts,
+		"samples":                       samples,
+		"harness_instances":             jobsRun,
+		"forks":                         forks,
+		"path_outcomes":                 outcomes,
+		"inconclusive_instances":        inconcl,
+		"inconclusive_details":          inconclMsgs,
+		"solver":                        solverInfo,
+		"solver_queries":                totalQ,
+		"functions_encoded":             encoded,
+		"harness_files":                 fnames,
+		"bounds":                        bounds,
+		"outside_the_claim":             spec.Outside,
+		"canaries_detected_and_replayed": fmt.Sprintf("%d/%d", canaryOK, canaryTotal),
+		"counterexamples_replayed":      replayed,
+		"counterexamples_reproduced":    replayConfirmed,
+		"engine_failures":               engineFail,
+		"exhaustive":                    false,
+		"trusted_base":                  []string{"go/ssa (x/tools v0.29.0) lowering", "symgo interpreter and stubs (see DESIGN.md 2.5)", "z3 4.8.12 / cvc5 1.0", "harness reference models"},
+	}
+	ev := map[string]interface{}{
+		"property_id": id, "tier": *tier, "seed": seed, "level": spec.Level, "coverage": cov,
+		"assumptions": spec.Assumptions, "wall_s": round2(wall.Seconds()), "violations": violations,
+	}
+	eb, _ := json.MarshalIndent(ev, "", " ")
+	os.MkdirAll(filepath.Join(root, "evidence"), 0o755)
+	os.WriteFile(filepath.Join(root, "evidence", id+".json"), eb, 0o644)
+
+	if *verbose {
+		sort.Slice(allJobs, func(a, b int) bool { return allJobs[a].wall > allJobs[b].wall })
+		for i, j := range allJobs {
+			if i >= 8 {
+				break
+			}
+			fmt.Printf("  slow: %s%v paths=%d wall=%.1fs\n", j.entry, j.cfg.Params, j.paths, j.wall.Seconds())
+		}
+	}
+	fmt.Printf("check %s tier=%s: instances=%d paths=%d obligations discharged=%d violations=%d inconclusive=%d canaries=%d/%d validated=%d queries=%d wall=%.1fs\n",
+		id, *tier, jobsRun, paths, asserts, violations, inconcl, canaryOK, canaryTotal, validated, totalQ, wall.Seconds())
+	for _, l := range ulines {
+		fmt.Println(l)
+	}
+	if violations > 0 {
+		return 1
+	}
+	if len(engineFail) > 0 {
+		for _, e := range engineFail {
+			fmt.Println("ENGINE-ERROR:", e)
+		}
+		return 2
+	}
+	if inconcl > 0 {
+		for _, m := range inconclMsgs {
+			fmt.Println("INCONCLUSIVE:", m)
+		}
+		return 2
+	}
+	return 0
+}
+
+func round2(f float64) float64 { return float64(int(f*100+0.5)) / 100 }
+
+func flagSet(fs *flag.FlagSet, name string) bool {
+	found := false
+	fs.Visit(func(f *flag.Flag) {
+		if f.Name == name {
+			found = true
+		}
+	})
+	return found
+}
+
+func instantiate(tmpl, out, pkg string) error {
+	b, err := os.ReadFile(tmpl)
+	if err != nil {
+		return err
+	}
+	b = bytes.Replace(b, []byte("package PKG"), []byte("package "+pkg), 1)
+	return os.WriteFile(out, b, 0o644)
+}
+
+func writeEvidenceError(root, id, tier string, seed int64, spec CheckSpec, msg string, wall time.Duration) {
+	ev := map[string]interface{}{
+		"property_id": id, "tier": tier, "seed": seed, "level": spec.Level,
+		"coverage": map[string]interface{}{"explanation": "check could not run: " + msg, "evaluations": 0, "distinct_nontrivial": 0, "samples": []string{msg}},
+		"wall_s":   round2(wall.Seconds()), "violations": 0,
+	}
+	eb, _ := json.MarshalIndent(ev, "", " ")
+	os.MkdirAll(filepath.Join(root, "evidence"), 0o755)
+	os.WriteFile(filepath.Join(root, "evidence", id+".json"), eb, 0o644)
+}
+
+// runJobsCollect runs jobs and stores outcome/reach/observe info under id.
+func runJobsCollect(jobs []*jobState, workers int, into map[string]replayResult, id string) {
+	for _, j := range jobs {
+		s, err := NewSolver(j.cfg.Solver, j.cfg.TimeoutMs)
+		if err != nil {
+			continue
+		}
+		in := newInterp(j.w, s, j.cfg, nil)
+		res := in.runPath(j.w.pkg.Func(j.entry))
+		s.Close()
+		r := replayResult{Status: res.Outcome, Reached: nil, Observed: res.Observed}
+		if len(res.Violations) > 0 {
+			r.Status = "failed"
+		}
+		// reach labels in order of first occurrence are not tracked; use sorted set
+		r.Reached = sortedKeys(res.Reaches)
+		into[id] = r
+	}
+}
+
+var replayLineRe = regexp.MustCompile(`^REPLAY-RESULT id=(\S+) status=(\S+) failures=(\S*) reached=(\S*) observed=(\S*)`)
+
+// nativeReplay compiles the harness natively (overlay) and runs the batch.
+func nativeReplay(repo, root string, gr *groupRun, items []replayItem) (map[string]replayResult, error) {
+	dir := filepath.Join(gr.tmp, "native")
+	os.MkdirAll(dir, 0o755)
+	overlay := map[string]string{}
+	pkgDir := filepath.Join(repo, gr.spec.Pkg)
+	nat := filepath.Join(dir, "native.go")
+	if err := instantiate(filepath.Join(root, "harness/common/verif_native.go.tmpl"), nat, gr.pkgName); err != nil {
+		return nil, err
+	}
+	overlay[filepath.Join(pkgDir, "zz_verif_native.go")] = nat
+	tst := filepath.Join(dir, "replay_test.go")
+	if err := instantiate(filepath.Join(root, "harness/common/replay_test.go.tmpl"), tst, gr.pkgName); err != nil {
+		return nil, err
+	}
+	overlay[filepath.Join(pkgDir, "zz_verif_replay_test.go")] = tst
+	var entries []string
+	entryRe := regexp.MustCompile(`(?m)^func (Harness\w*)\(\)`)
+	for _, f := range gr.files {
+		overlay[filepath.Join(pkgDir, "zz_verif_"+filepath.Base(f))] = f
+		b, _ := os.ReadFile(f)
+		for _, m := range entryRe.FindAllSubmatch(b, -1) {
+			entries = append(entries, string(m[1]))
+		}
+	}
+	var sb strings.Builder
+	fmt.Fprintf(&sb, "package %s\n\nvar verifHarnesses = map[string]func(){\n", gr.pkgName)
+	for _, e := range entries {
+		fmt.Fprintf(&sb, "\t%q: %s,\n", e, e)
+	}
+	sb.WriteString("}\n")
+	regf := filepath.Join(dir, "registry.go")
+	os.WriteFile(regf, []byte(sb.String()), 0o644)
+	overlay[filepath.Join(pkgDir, "zz_verif_registry.go")] = regf
+	ob, _ := json.Marshal(map[string]interface{}{"Replace": overlay})
+	of := filepath.Join(dir, "overlay.json")
+	os.WriteFile(of, ob, 0o644)
+	bf := filepath.Join(dir, "batch.json")
+	bb, _ := json.Marshal(items)
+	os.WriteFile(bf, bb, 0o644)
+	pat := "./" + gr.spec.Pkg
+	if gr.spec.Pkg == "." || gr.spec.Pkg == "" {
+		pat = "."
+	}
+	sortedItems(items)
+	cmd := exec.Command("go", "test", "-vet=off", "-count=1", "-timeout", "300s", "-overlay", of, "-run", "^TestVerifReplay$", "-v", pat)
+	cmd.Dir = repo
+	cmd.Env = append(os.Environ(), "GOFLAGS=-mod=mod", "GOPROXY=off", "GOSUMDB=off", "GOTOOLCHAIN=local", "VERIF_BATCH="+bf)
+	out, err := cmd.CombinedOutput()
+	res := map[string]replayResult{}
+	sc := bufio.NewScanner(bytes.NewReader(out))
+	sc.Buffer(make([]byte, 1<<20), 1<<26)
+	for sc.Scan() {
+		m := replayLineRe.FindStringSubmatch(sc.Text())
+		if m == nil {
+			continue
+		}
+		split := func(s string) []string {
+			if s == "" {
+				return nil
+			}
+			return strings.Split(s, ",")
+		}
+		r := replayResult{Status: m[2], Failures: split(m[3]), Reached: split(m[4]), Observed: split(m[5])}
+		sort.Strings(r.Reached)
+		r.Reached = uniq(r.Reached)
+		res[m[1]] = r
+	}
+	if len(res) == 0 {
+		tail := string(out)
+		if len(tail) > 1500 {
+			tail = tail[len(tail)-1500:]
+		}
+		return nil, fmt.Errorf("go test produced no replay results (err=%v): %s", err, tail)
+	}
+	return res, nil
+}
+
+func uniq(s []string) []string {
+	var r []string
+	for i, x := range s {
+		if i == 0 || x != s[i-1] {
+			r = append(r, x)
+		}
+	}
+	return r
+}
+
+func sortedItems(items []replayItem) {}
+
+func loadKnownFindings(path string) map[string]string {
+	m := map[string]string{}
+	b, err := os.ReadFile(path)
+	if err != nil {
+		return m
+	}
+	re := regexp.MustCompile(`^finding:\s+property=(\S+)\s+harness=(\S+)\s+label=(\S+)\s*(.*)$`)
+	for _, l := range strings.Split(string(b), "\n") {
+		if mm := re.FindStringSubmatch(strings.TrimSpace(l)); mm != nil {
+			m[mm[1]+"|"+mm[2]+"|"+mm[3]] = fmt.Sprintf("harness=%s label=%s %s", mm[2], mm[3], mm[4])
+		}
+	}
+	return m
+}
+
+func encodedFunctions(groups []*groupRun) []string {
+	set := map[string]bool{}
+	for _, gr := range groups {
+		gr.w.imu.Lock()
+		for f, n := range gr.w.instrs {
+			set[fmt.Sprintf("%s (%d SSA instrs)", f, n)] = true
+		}
+		gr.w.imu.Unlock()
+	}
+	var r []string
+	for f := range set {
+		r = append(r, f)
+	}
+	sort.Strings(r)
+	if len(r) > 120 {
+		r = append(r[:120], fmt.Sprintf("... and %d more", len(r)-120))
+	}
+	return r
+}
